@@ -1,91 +1,21 @@
-import BezierVerif.Model.Basic
-import BezierVerif.Model.Curve
-import Driver.Proto
+import Driver.Ops.Common
+import Driver.Ops.Curve
 
 /-!
 # Driver/Main — the model behind a one-line-in, one-line-out protocol (K := Rat)
 
 request : `<op> <arg> <arg> ...`      reply : `ok <value>` | `err <enum>` | `bad <reason>`
+Ops live in `Driver/Ops/*.lean` (one module per model area, each exporting `handle`).
 -/
 
-open BezierVerif.Model
 open Driver
 
-abbrev Q := Rat
+/-- the op modules, tried in order -/
+def handlers : List (String → List V → Option String) :=
+  [Driver.Ops.Curve.handle]
 
-def errV (e : Err) : String := "err " ++ e.toString
-
-def okV (v : V) : String := "ok " ++ v.render
-
-def exceptMat (r : Except Err (List (List Q))) : String :=
-  match r with
-  | .ok m => okV (ofMat m)
-  | .error e => errV e
-
-def pairMat (p : List (List Q) × List (List Q)) : V := .list [ofMat p.1, ofMat p.2]
-
-/-- dispatch on the op name -/
 def handle (op : String) (args : List V) : Option String :=
-  match op, args with
-  -- curve evaluation
-  | "evalvs", [nodes, l1, l2] => do
-    let m ← nodes.toMat?; let a ← l1.toRat?; let b ← l2.toRat?
-    pure (okV (ofRow (m.map (fun row => evalVS (row.length - 1) a b (seq row)))))
-  | "evaldc", [nodes, l1, l2] => do
-    let m ← nodes.toMat?; let a ← l1.toRat?; let b ← l2.toRat?
-    pure (okV (ofRow (m.map (fun row => evalDC a b (row.length - 1) row))))
-  | "evalbary", [thr, nodes, l1s, l2s] => do
-    let t ← thr.toNat?; let m ← nodes.toMat?; let a ← l1s.toRow?; let b ← l2s.toRow?
-    pure (okV (ofMat (evalMultiBary t m (a.zip b))))
-  | "evalmulti", [thr, nodes, ss] => do
-    let t ← thr.toNat?; let m ← nodes.toMat?; let s ← ss.toRow?
-    pure (okV (ofMat (evalMulti t m s)))
-  -- subdivision / specialisation
-  | "subdivide_py", [nodes] => do
-    let m ← nodes.toMat?
-    pure (okV (pairMat (Py.subdivide m)))
-  | "subdivide_f90", [nodes] => do
-    let m ← nodes.toMat?
-    pure (okV (pairMat (F90.subdivide m)))
-  | "submat", [n] => do
-    let d ← n.toNat?
-    pure (okV (.list [ofMat (leftMat (K := Q) d), ofMat (rightMat (K := Q) d)]))
-  | "specialize_py", [nodes, a, b] => do
-    let m ← nodes.toMat?; let a ← a.toRat?; let b ← b.toRat?
-    pure (okV (ofMat (Py.specialize m a b)))
-  | "specialize_f90", [nodes, a, b] => do
-    let m ← nodes.toMat?; let a ← a.toRat?; let b ← b.toRat?
-    pure (okV (ofMat (F90.specialize m a b)))
-  -- elevation / reduction
-  | "elevate", [nodes] => do
-    let m ← nodes.toMat?
-    pure (okV (ofMat (elevate m)))
-  | "elevate_f90", [nodes] => do
-    let m ← nodes.toMat?
-    pure (okV (ofMat (m.map F90.elevateRow)))
-  | "reduce", [nodes] => do
-    let m ← nodes.toMat?
-    pure (exceptMat (reducePinv m))
-  | "fullreduce", [thrSq, nodes] => do
-    let t ← thrSq.toRat?; let m ← nodes.toMat?
-    pure (exceptMat (fullReduce t m))
-  | "canreduce", [thrSq, nodes] => do
-    let t ← thrSq.toRat?; let m ← nodes.toMat?
-    pure (match canReduce t m with
-      | .ok b => okV (ofBool b)
-      | .error e => errV e)
-  -- derivatives
-  | "hodograph", [thr, nodes, s] => do
-    let t ← thr.toNat?; let m ← nodes.toMat?; let s ← s.toRat?
-    pure (okV (ofRow (hodograph t m s)))
-  | "curvature_parts", [thr, nodes, tangent, s] => do
-    let t ← thr.toNat?; let m ← nodes.toMat?; let tv ← tangent.toRow?; let s ← s.toRat?
-    let p := curvatureParts t m tv s
-    pure (okV (ofRow [p.1, p.2]))
-  | "newton_refine_curve", [thr, nodes, point, s] => do
-    let t ← thr.toNat?; let m ← nodes.toMat?; let p ← point.toRow?; let s ← s.toRat?
-    pure (okV (.num (newtonRefine t m p s)))
-  | _, _ => none
+  handlers.firstM (fun h => h op args)
 
 def step (line : String) : String :=
   let toks := (line.trimAscii.toString.splitOn " ").filter (· ≠ "")
